@@ -72,6 +72,8 @@ pub fn ext_default(func: &str, s: &str) -> ExtAnswer {
                 _ => ExtAnswer::Fail,
             }
         }
+        // a whitespace skipper written as an extern function: underscores and NBSP
+        "hrt::user::ws_ext" => ExtAnswer::Take(s.chars().take_while(|c| *c == '_' || *c == '\u{a0}').count()),
         _ => ExtAnswer::Fail,
     }
 }
@@ -155,6 +157,10 @@ probe!(probe2);
 probe!(probe3);
 probe!(probe4);
 probe!(probe5);
+
+pub fn ws_ext(s: &str) -> Result<(U, usize), &'static str> {
+    ext_answer("hrt::user::ws_ext", s).map(|(_, n)| (U, n))
+}
 
 pub fn tok(s: &str) -> Result<(String, usize), &'static str> {
     ext_answer("hrt::user::tok", s)
